@@ -16,7 +16,7 @@ Definition tc_structural (s : state) (i : nat) : Prop :=
         /\ (forall k, k < Nat.min (h_size (geth s i)) n -> nth k (abs s' i) 0%Z = nth k (abs s i) 0%Z)
         /\ (h_psz (geth s i) < n -> forall k, h_size (geth s i) <= k -> nth k (abs s' i) 0%Z = 0%Z)).
 (* deep copy (constructor / copy constructor), copy / operator=, allocate, write / operator[] / front / back /
-   iterators, reserve *)
+   iterators (inside the documented index range; outside it the model refuses), reserve *)
 Definition tc_copying (s : state) (i : nat) : Prop :=
   (forall p, i <> p -> abs (r_s (step all_fixed s (OWithCopy i p))) i = abs s p)
   /\ (forall p, abs (r_s (step all_fixed s (OCopy i p))) i = abs s p)
@@ -26,7 +26,7 @@ Definition tc_copying (s : state) (i : nat) : Prop :=
         /\ ((counter s i = 1%Z /\ n <= h_psz (geth s i)) ->
             forall k, k < Nat.min (h_size (geth s i)) n -> nth k (abs s' i) 0%Z = nth k (abs s i) 0%Z))
   /\ (forall k v, k < h_size (geth s i) -> abs (r_s (step all_fixed s (OWrite i k v))) i = upd k v (abs s i))
-  /\ (forall k v, h_size (geth s i) <= k -> r_s (step all_fixed s (OWrite i k v)) = s)
+  /\ (forall k v, h_size (geth s i) <= k -> r_df (step all_fixed s (OWrite i k v)) = Some DOutOfRange /\ r_s (step all_fixed s (OWrite i k v)) = s)
   /\ (forall n, abs (r_s (step all_fixed s (OReserve i n))) i = []
                 /\ h_size (geth (r_s (step all_fixed s (OReserve i n))) i) = 0).
 
